@@ -40,7 +40,27 @@ impl Matrix<f64> {
                 sum += f64::powf( self[(i,j)].abs(), p );
             }
         }
-        f64::powf( sum, 1.0/p )
+        // ordinary range: no power overflowed and whatever underflowed is negligible
+        if sum >= 1.0e-270 && sum <= 1.0e270 {
+            return f64::powf( sum, 1.0/p );
+        }
+        // otherwise (an entry 1e200 gave norm_frob = inf, an entry 1e-200 gave 0) sum the powers of the
+        // entries scaled by the largest magnitude, as Vector::norm_p does
+        let mut scale: f64 = 0.0;
+        for i in 0..self.rows {
+            for j in 0..self.cols {
+                let abs = self[(i,j)].abs();
+                if scale < abs || abs.is_nan() { scale = abs; }
+            }
+        }
+        if scale == 0.0 || !scale.is_finite() { return scale; }
+        sum = 0.0;
+        for i in 0..self.rows {
+            for j in 0..self.cols {
+                sum += f64::powf( self[(i,j)].abs() / scale, p );
+            }
+        }
+        scale * f64::powf( sum, 1.0/p )
     }
 
     /// Return the matrix Frobenius norm 
